@@ -39,8 +39,19 @@ func main() {
 	}
 }
 
+var knownSigs map[string]bool
+
 func optsFor(prop string) sim.RunOpts {
-	return sim.RunOpts{Target: prop, Oracles: sim.OraclesFor, FullReplay: prop == "C01", QuietBlocks: 4}
+	return sim.RunOpts{Target: prop, Known: knownSigs, Oracles: sim.OraclesFor, FullReplay: prop == "C01", QuietBlocks: 4}
+}
+
+func loadKnown(path string) {
+	knownSigs = map[string]bool{}
+	for _, f := range loadFindings(path) {
+		if f.Status == "open" {
+			knownSigs[f.Signature] = true
+		}
+	}
 }
 
 func runSeed(i uint64, base uint64) uint64 {
@@ -58,6 +69,7 @@ func cmdOne(args []string) {
 	tier := fs.String("tier", "quick", "")
 	dump := fs.String("dump", "", "write trace here")
 	fs.Parse(args)
+	loadKnown("/verif/known_findings.json")
 	res := sim.RunSeed(*seed, sim.ProfileFor(*prop, *tier), optsFor(*prop))
 	if res.Internal != nil {
 		fmt.Println("INTERNAL:", res.Internal)
@@ -107,7 +119,9 @@ func cmdWorker(args []string) {
 	deadline := fs.Int64("deadline", 0, "unix seconds")
 	out := fs.String("out", "", "jsonl output")
 	tmp := fs.String("tmp", os.TempDir(), "where failing traces go")
+	findings := fs.String("findings", "/verif/known_findings.json", "")
 	fs.Parse(args)
+	loadKnown(*findings)
 	f, err := os.Create(*out)
 	if err != nil {
 		fmt.Println(err)
@@ -242,7 +256,7 @@ func cmdBatch(args []string) {
 		go func(k int) {
 			defer wg.Done()
 			cmd := exec.Command(self, "worker", "--property", *prop, "--profile", *profile, "--tier", *tier, "--seed", fmt.Sprint(base), "--k", fmt.Sprint(k), "--n", fmt.Sprint(*workers),
-				"--max-runs", fmt.Sprint(mr), "--deadline", fmt.Sprint(deadline), "--out", outs[k], "--tmp", tmp)
+				"--max-runs", fmt.Sprint(mr), "--deadline", fmt.Sprint(deadline), "--out", outs[k], "--tmp", tmp, "--findings", *findings)
 			cmd.Env = append(os.Environ(), "GOMAXPROCS=2")
 			lf, _ := os.Create(filepath.Join(tmp, fmt.Sprintf("w%d.log", k)))
 			cmd.Stdout = lf
@@ -264,6 +278,7 @@ func cmdBatch(args []string) {
 	wg.Wait()
 
 	known := loadFindings(*findings)
+	loadKnown(*findings)
 	var lines []RunLine
 	for _, o := range outs {
 		f, err := os.Open(o)
@@ -461,6 +476,7 @@ func cmdReplay(args []string) {
 	if prop == "" && tr.Violation != nil {
 		prop = tr.Violation.Property
 	}
+	loadKnown("/verif/known_findings.json")
 	res := sim.Replay(tr, optsFor(prop))
 	if res.Internal != nil {
 		fmt.Println("INTERNAL:", res.Internal)
